@@ -86,7 +86,9 @@ def run(chk):
             "C %s | nosuch 1" % (work / "warn.utb"), "T %s 0" % (work / "warn.utb"), "G unicode.dis,en-us-g1.ctb",
             "E 50000 " + "fatal%s".encode().hex(), "E 10000 " + "dbg".encode().hex(), "E 30000 " + "w%n".encode().hex(),
             "T nonexistent.ctb 0", "K en-us-g1.ctb,%s" % (work / "bad%d.utb"),
-            "B en-us-g1.ctb 99999", "B en-us-g1.ctb 0", "B en-us-g2.ctb 262144", "T en-us-g2.ctb 262144", "B nonexistent.ctb 0"]
+            "B en-us-g1.ctb 99999", "B en-us-g1.ctb 0", "B en-us-g2.ctb 262144", "T en-us-g2.ctb 262144", "B nonexistent.ctb 0",
+            # the two holes in the set of mode bits (8, 16) and their combinations with valid bits are invalid too
+            "T en-us-g1.ctb 8", "B en-us-g1.ctb 16", "T en-us-g1.ctb 24", "B en-us-g1.ctb 12", "T en-us-g1.ctb 17", "T en-us-g1.ctb 5", "B en-us-g1.ctb 260"]
     dump_texts = ["10% off", "a%sb %n %d", "100%", "%%", "plain text", "%x%x%x%x", "50%-60% %5$s"]
     pool += ["U en-us-g1.ctb " + t.encode().hex() for t in dump_texts]
     for i in range(12 * mult):
@@ -109,7 +111,8 @@ def run(chk):
             continue
         allcap, _ = parse_capture(outs[0])
         # every call with a mode that is not a translation mode produces an error-level message (forward and backward alike)
-        ninv = len([b for b in seq if b[0] in "TB" and b.split()[-1] in ("99999", "262144") and "nonexistent" not in b])
+        VALID = 1 | 2 | 4 | 32 | 64 | 128 | 256      # translationModes of liblouis.h
+        ninv = len([b for b in seq if b[0] in "TB" and b[1] == " " and b.split()[-1].isdigit() and int(b.split()[-1]) & ~VALID and "nonexistent" not in b])
         nmsg = len([d for d in allcap if d[1] == 40000 and "Invalid mode".encode().hex() in d[2]])
         if nmsg < ninv:
             chk.violation("message-not-delivered", "%d calls with an invalid mode, but only %d 'Invalid mode' messages reached the callback at threshold ALL" % (ninv, nmsg),
